@@ -476,7 +476,7 @@ pub fn run_property(ctx: &RunCtx, def: &PropertyDef, only_sub: Option<&str>) -> 
         "seed": ctx.seed,
         "level": def.level,
         "coverage": {
-            "evaluations": total.evaluations,
+            "evaluations": total.evaluations + violations.len() as u64,
             "distinct_nontrivial": total.nontrivial.len(),
             "rule": def.rule,
             "samples": samples,
